@@ -116,10 +116,33 @@ def run_shard(rec, tier, seed, shard, nshards):
 
                     Q = _Screen(treatment_names=P.treatment_names.copy(), treatment_doses=P.treatment_doses.copy(), sample_names=P.sample_names.copy(), plate_names=P.plate_names.copy(), observations=P.observations.copy(), observation_mask=P.observation_mask.copy(), control_treatment_name=P.control_treatment_name)
                     m = _mask(rng, Q.size)
+                    whole_plates = bool(rng.random() < 0.5)
+                    if whole_plates:
+                        # the results of whole plates arrive (what the lab delivers)
+                        un_ = [p_ for p_ in Q.plates if not p_.is_observed]
+                        m = np.zeros(Q.size, dtype=bool)
+                        for p_ in un_:
+                            if rng.random() < 0.6:
+                                m |= np.asarray(p_.selection_vector)
                     if not m.any():
                         continue
+                    # views handed out BEFORE the results arrive, each already asked for its size and rows
+                    held = [("subset_observed", Q.subset_observed()), ("subset_unobserved", Q.subset_unobserved()), ("subset", Q.subset(_mask(rng, Q.size)))] + [("plate", p_) for p_ in Q.plates[:3]]
+                    held = [(n_, v_) for n_, v_ in held if v_ is not None]
+                    _ = [(v_.size, len(v_.observations), v_.n_plates) for _n, v_ in held]
                     Q.set_observed(m, rng.random(int(m.sum())) + 3.0)
                     rec.count("parents_with_rows_marked_observed")
+                    for n_, v_ in held:
+                        # whatever rows a view stands for now, it is ONE selection of the parent: its size, each of its
+                        # attributes and the screen made from it all speak of the same rows
+                        rows_now = tuple(int(x) for x in np.flatnonzero(np.asarray(v_.selection_vector)))
+                        rec.count("nodes_checked")
+                        rec.count("views_held_while_results_were_recorded")
+                        check_view(rec, v_, Q, rows_now, "%s view held while rows were marked observed" % n_)
+                        rec.check(v_.size == len(v_.sample_ids), "C14/view/size", lambda: "%s view held while rows were marked observed: size %d, %d sample ids" % (n_, v_.size, len(v_.sample_ids)))
+                        if whole_plates:
+                            ts_ = v_.to_screen()
+                            rec.check(ts_.size == v_.size, "C14/view/size", lambda: "%s view held while plates were marked observed: size %d, to_screen() has %d rows" % (n_, v_.size, ts_.size))
                     qm = np.asarray(Q.observation_mask)
                     for which in ("observed", "unobserved"):
                         want = np.flatnonzero(qm if which == "observed" else ~qm)
